@@ -26,6 +26,23 @@ def _eps() -> rx.NFA:
     return n
 
 
+def rx_balanced(t: str) -> bool:
+    """parentheses of a regex fragment are balanced and never close below depth 0 (escapes skipped)"""
+    d, i = 0, 0
+    while i < len(t):
+        if t[i] == "\\":
+            i += 2
+            continue
+        if t[i] == "(":
+            d += 1
+        elif t[i] == ")":
+            d -= 1
+            if d < 0:
+                return False
+        i += 1
+    return d == 0
+
+
 def check_names(idx: Index, rep: Report) -> None:
     name_pat, name_fl = module_regex(idx, CORE, "_VALUE_NAME_PATTERN")
     suf_pat, suf_fl = module_regex(idx, CORE, "_VALUE_NAME_SUFFIX_PATTERN")
@@ -59,8 +76,12 @@ def check_names(idx: Index, rep: Report) -> None:
     if not sp.endswith("$"):
         raise AnalysisError(f"suffix pattern {sp!r} is not anchored at the end")
     core_sp = sp[:-1]
-    m = re.fullmatch(r"\((.*)\)\+", core_sp)
-    if m:
+    # strip one outer capturing group, then recognise `(X)+` / `(?:X)+`: all trailing X's are removed at once
+    m = re.fullmatch(r"\(((?:\?:)?.*)\)", core_sp)
+    if m and rx_balanced(m.group(1)):
+        core_sp = m.group(1)
+    m = re.fullmatch(r"\((?:\?:)?(.*)\)\+", core_sp)
+    if m and rx_balanced(m.group(1)):
         fixpoint = True
         core_sp = m.group(1)
     S = rx.from_regex(core_sp, suf_fl)
